@@ -1,5 +1,6 @@
 import Crusta.Proofs.Sat
 import Crusta.Proofs.SatRoundTrip
+import Crusta.Proofs.SatMalformed
 
 /-!
 # C16 — the exchange with an external SAT solver is well-formed and cannot hang (property theorems)
@@ -96,5 +97,36 @@ example : (⟨[[99]], [([], 1)], [[99, 32, 120]], []⟩ : Layout).Ok := by
   · intro ch hch l hl; simp at hch; subst hch; simp at hl
   · intro l hl; simp at hl; subst hl; exact ⟨ok2, .inr (.inr ⟨[120], rfl⟩)⟩
   · intro l hl; simp at hl
+
+/-- **a malformed reply is never a result, wherever the malformed part is.**  (1) If any line of
+the output is one the parser rejects (`BadLine`: invalid UTF-8; neither a status line, a `v ` line,
+a comment, a bare `v` nor empty; a `v ` line with a token that is not an integer or a literal
+beyond the declared variables — `badLine_*` give these sufficient conditions), the call aborts.
+(2) Two status lines, in any order, anything in between, abort.  (3) In particular anything bad
+*after* `s UNSATISFIABLE` or after `s SATISFIABLE` prevents the result from being reported — a
+parser may not stop reading at the status line. -/
+theorem malformed_reply_aborts (nv : Nat) (out : List UInt8) :
+    ((∃ l ∈ IO.lines out, BadLine nv l) → ∃ e, parseReply nv out = .abort e) ∧
+    (∀ (a b c : List (Option IO.Str)) (s1 s2 : Option IO.Str), StatusLine s1 → StatusLine s2 →
+      IO.lines out = a ++ s1 :: (b ++ s2 :: c) → ∃ e, parseReply nv out = .abort e) ∧
+    (∀ (a b : List (Option IO.Str)), IO.lines out = a ++ some sUnsat :: b →
+      (∃ l ∈ b, BadLine nv l ∨ StatusLine l) → parseReply nv out ≠ .unsat) ∧
+    (∀ (a b : List (Option IO.Str)), IO.lines out = a ++ some sSat :: b →
+      (∃ l ∈ b, BadLine nv l ∨ StatusLine l) → ∀ m, parseReply nv out ≠ .sat m) :=
+  ⟨Sat.bad_line_aborts nv out,
+   fun a b c s1 s2 h1 h2 hl => Sat.two_status_lines_abort nv out a b c s1 s2 h1 h2 hl,
+   fun a b hl hb => (Sat.unsat_then_anything_bad nv out a b hl hb).2,
+   fun a b hl hb => (Sat.sat_then_anything_bad nv out a b hl hb).2⟩
+
+/-- the classes of rejected lines -/
+theorem rejected_lines (nv : Nat) :
+    BadLine nv none ∧
+    (∀ l : IO.Str, l ≠ IO.strOf "s SATISFIABLE" → l ≠ IO.strOf "s UNSATISFIABLE" →
+      (IO.strOf "v ").isPrefixOf l = false → (IO.strOf "c ").isPrefixOf l = false →
+      l ≠ IO.strOf "c" → l ≠ IO.strOf "v" → l ≠ [] → BadLine nv (some l)) ∧
+    (∀ l : IO.Str, (IO.strOf "v ").isPrefixOf l = true →
+      (∃ w ∈ (splitAsciiWs l).drop 1, BadTok nv w) → BadLine nv (some l)) :=
+  ⟨Sat.badLine_none nv, fun l h1 h2 h3 h4 h5 h6 h7 => Sat.badLine_unexpected' nv l h1 h2 h3 h4 h5 h6 h7,
+   fun l hp h => Sat.badLine_vline' nv l hp h⟩
 
 end Crusta.C16
